@@ -167,10 +167,26 @@ def rebind_facts(prog, op):
             for n in f.own_nodes()
         )
         return {'kind': 'reset', 'rebuilt': rebuilt, 'detail': 'queue reset to [] ' + ('together with a rebuilt task graph' if rebuilt else 'WITHOUT rebuilding the task graph')}
-    # sorted(<iterable>, key=...) | list(<iterable>) | <iterable>
-    inner = v
-    while isinstance(inner, ast.Call) and isinstance(inner.func, ast.Name) and inner.func.id in ('sorted', 'list', 'tuple') and inner.args:
-        inner = inner.args[0]
+    # sorted(<iterable>, key=...) | list(<iterable>) | <iterable>; a pipeline stage held in a single-assignment local is followed
+    def _unwrap(e, depth=0):
+        while True:
+            if isinstance(e, ast.Call) and isinstance(e.func, ast.Name) and e.func.id in ('sorted', 'list', 'tuple') and e.args:
+                e = e.args[0]
+                continue
+            if isinstance(e, ast.Name) and depth < 4:
+                defs = [s.value for s in f.own_nodes() if isinstance(s, ast.Assign) and any(isinstance(t, ast.Name) and t.id == e.id for t in s.targets)]
+                mut = [
+                    c
+                    for c in f.calls()
+                    if isinstance(c.func, ast.Attribute) and isinstance(c.func.value, ast.Name) and c.func.value.id == e.id and c.func.attr in ('append', 'extend', 'insert', 'remove', 'pop', 'clear', 'sort')
+                ]
+                if len(defs) == 1 and isinstance(defs[0], (ast.ListComp, ast.GeneratorExp, ast.Call)) and not [m for m in mut if m.func.attr != 'sort']:
+                    e = defs[0]
+                    depth += 1
+                    continue
+            return e
+
+    inner = _unwrap(v)
     pred = None
     var = None
     src = inner
@@ -252,7 +268,7 @@ def closure_rule(ctx, rep, rid):
         breaks='the release filter does not see a transitive upstream algorithm (only parents): a grandchild is released while its grandparent is pending',
     ) as r:
         # ---- _ancestry
-        f = prog.func('dawgie.pl.dag.Construct._ancestry')
+        f = prog.nfunc('dawgie.pl.dag.Construct._ancestry')
         rep.analysed(f)
         r.instance()
         whiles = [n for n in f.own_nodes() if isinstance(n, ast.While)]
@@ -338,7 +354,7 @@ def closure_rule(ctx, rep, rid):
         r.check(found, f'{f.qname}:fix-point', where(f), detail, f'Construct._ancestry is not a fix-point closure: {detail}')
 
         # ---- _parents
-        p = prog.func('dawgie.pl.dag.Construct._parents')
+        p = prog.nfunc('dawgie.pl.dag.Construct._parents')
         rep.analysed(p)
         r.instance()
         adds = [
@@ -391,7 +407,7 @@ def closure_rule(ctx, rep, rid):
                 nontrivial=False,
             )
         # ---- Node.trim copies ancestry
-        t = prog.func('dawgie.pl.dag.Node.trim')
+        t = prog.nfunc('dawgie.pl.dag.Node.trim')
         rep.analysed(t)
         r.instance()
         sets = [
@@ -405,6 +421,18 @@ def closure_rule(ctx, rep, rid):
         ]
         okk = False
         det = "no short_node.set('ancestry', ...) found"
+
+        def _exp(e, depth=0):
+            """names replaced by their single local definition (helper arguments become locals when a helper is inlined)"""
+            if depth > 3:
+                return [e]
+            out = [e]
+            for nm in {n.id for n in ast.walk(e) if isinstance(n, ast.Name)}:
+                defs = [s.value for s in t.own_nodes() if isinstance(s, ast.Assign) and any(isinstance(x, ast.Name) and x.id == nm for x in s.targets)]
+                for dv in defs:
+                    out.extend(_exp(dv, depth + 1))
+            return out
+
         for c in sets:
             val = c.args[1]
             if isinstance(val, ast.Name):
@@ -417,10 +445,10 @@ def closure_rule(ctx, rep, rid):
                     and isinstance(u.func.value, ast.Name)
                     and u.func.value.id == val.id
                     and u.args
-                    and any((gk := get_key(n)) and gk[1] == 'ancestry' and isinstance(gk[0], ast.Name) and gk[0].id == 'self' for n in ast.walk(u.args[0]))
-                    and u.lineno < c.lineno
+                    and any((gk := get_key(n)) and gk[1] == 'ancestry' and isinstance(gk[0], ast.Name) and gk[0].id == 'self' for x in _exp(u.args[0]) for n in ast.walk(x))
+                    and u.lineno <= c.lineno
                 ]
-                trimmed = any(any(isinstance(n, ast.Call) and isinstance(n.func, ast.Attribute) and n.func.attr == 'trim' for n in ast.walk(u.args[0])) for u in ups)
+                trimmed = any(any(isinstance(n, ast.Call) and isinstance(n.func, ast.Attribute) and n.func.attr == 'trim' for x in _exp(u.args[0]) for n in ast.walk(x)) for u in ups)
                 if ups and trimmed:
                     okk = True
                     det = f"{val.id} is extended with the trimmed tags of self.get('ancestry') and stored as the short node's ancestry"
@@ -432,6 +460,24 @@ def closure_rule(ctx, rep, rid):
             else:
                 det = f"value stored as ancestry ({norm(val)}) does not derive from the value-level node's ancestry"
         r.check(okk, f'{t.qname}:ancestry-copied', where(t), det, f'Node.trim: {det}')
+
+
+def only_called_from(cg, qname, allowed, _seen=None):
+    """every caller of `qname` (any edge kind) is in `allowed`, or is itself only called from `allowed` (helper chains);
+    a function nobody calls is not accepted"""
+    _seen = _seen or set()
+    if qname in _seen:
+        return True
+    _seen.add(qname)
+    callers = {e.src.qname for e in cg.callers(qname)}
+    if not callers:
+        return False
+    for c in callers:
+        if c in allowed:
+            continue
+        if not only_called_from(cg, c, allowed, _seen):
+            return False
+    return True
 
 
 def job_loop(prog, disp):
